@@ -54,6 +54,18 @@ def exercise():
             s = world.ScriptedApi(t2, "ab1c2d", "18")
             await s.run(9 if t2 else 11, [], [bytes(8) + b"\x01\x02\x03\x04" + bytes(12), bytes(120)], 1_700_000_000)
     asyncio.run(go())
+    # ... and the last things the library sees are broadcasts of known models that fail to decode, and a user callback that raises
+    from aioswitcher.bridge import _parse_device_from_datagram
+    def boom(dev): raise KeyError("user callback")
+    for cap in caps:
+        for damage in ((135, b"\xff\xff\xff\xff"), (42, b"\xff" * 32), (140, b"\xf7"), (137, b"\x07\x07"), (155, b"\xff\xff\xff\x7f")):
+            d = bytearray(cap); o, b = damage
+            if o + len(b) <= len(d): d[o:o + len(b)] = b
+            for cb in ((lambda dev: None), boom):
+                try: _parse_device_from_datagram(cb, bytes(d))
+                except Exception: pass
+        try: _parse_device_from_datagram(boom, cap)
+        except Exception: pass
 
 
 def codes_sweep(out):
